@@ -44,6 +44,7 @@ type LoopSpec struct {
 	Ghost    []Clause // Label = name, Src = expression captured at loop entry
 	Inv      []Clause
 	Assert   []Clause // proof steps: checked at the end of the body (before the increment), then assumed
+	Head     []Clause // Label = name, Src = expression captured at the head of the (arbitrary) iteration; for use in asserts
 	Unroll   bool
 	WritesFresh bool // every heap write of the loop targets an object allocated after function entry (checked)
 	Modifies []string
@@ -91,6 +92,8 @@ type Lemma struct {
 	Props    []string
 	File     string
 	Line     int
+	Induct   string   // Int parameter to induct on (induction hypothesis at n-1 assumed for n > 0)
+	Patterns []Clause // each: comma-separated terms forming one (multi-)pattern, for use as an axiom
 }
 
 type ContractDB struct {
@@ -240,6 +243,10 @@ func (db *ContractDB) loadFile(fn string) error {
 					curLemma.Ensures = append(curLemma.Ensures, mkClause(rest))
 				case "prop":
 					curLemma.Props = append(curLemma.Props, strings.Fields(rest)...)
+				case "induct":
+					curLemma.Induct = strings.TrimSpace(rest)
+				case "pattern":
+					curLemma.Patterns = append(curLemma.Patterns, mkClause(rest))
 				default:
 					return fmt.Errorf("%s:%d: unknown lemma clause %q", fn, ln, word)
 				}
@@ -302,6 +309,12 @@ func (db *ContractDB) loadFile(fn string) error {
 						return fmt.Errorf("%s:%d: bad ghost clause", fn, ln)
 					}
 					ls.Ghost = append(ls.Ghost, Clause{Label: strings.TrimSpace(kv[0]), Src: strings.TrimSpace(kv[1]), File: filepath.Base(fn), Line: ln})
+				case "head":
+					kv := strings.SplitN(body, "=", 2)
+					if len(kv) != 2 {
+						return fmt.Errorf("%s:%d: bad head clause", fn, ln)
+					}
+					ls.Head = append(ls.Head, Clause{Label: strings.TrimSpace(kv[0]), Src: strings.TrimSpace(kv[1]), File: filepath.Base(fn), Line: ln})
 				case "unroll":
 					ls.Unroll = true
 				case "writes_fresh":
